@@ -26,6 +26,8 @@ func runExtras(p *Program, prop, tier string, seed int) *ExtraResult {
 		go func() { runBounded(p, er, "store", []string{"murmur", "crc"}, tier, seed); done <- true }()
 		crcTableObligations(p, er)
 		<-done
+	case "C10":
+		runBounded(p, er, "quicklz", []string{"safe", "cross"}, tier, seed)
 	case "C09":
 		done := make(chan bool)
 		go func() { runBounded(p, er, "store", []string{"crc"}, tier, seed); done <- true }()
@@ -184,8 +186,29 @@ func runBounded(p *Program, er *ExtraResult, pkgShort string, names []string, ti
 		rec["cases"] = cases
 		rec["bounds"] = bounds
 		if _, bad := rec["violation"]; !bad && cases == 0 {
-			rec["error"] = truncate(txt, 1500)
+			if strings.Contains(txt, "SIGSEGV") || strings.Contains(txt, "signal arrived during cgo execution") || strings.Contains(txt, "fatal error:") {
+				// the test process died: a crash is the violation (the last lines show where)
+				rec["violation"] = "GOVC-BOUNDED-FAIL " + name + " the test process crashed: " + firstLines(crashSummary(txt), 6)
+			} else if strings.Contains(txt, "GOVC-BOUNDED-OK") || strings.Contains(txt, "GOVC-BOUNDED-FAIL") {
+				// another test of the same run failed first; this one did not run
+				rec["skipped"] = "not run: an earlier bounded test of the same package failed or crashed"
+			} else {
+				rec["error"] = truncate(txt, 1500)
+			}
 		}
 		er.Bounded = append(er.Bounded, rec)
 	}
+}
+
+func crashSummary(txt string) string {
+	var keep []string
+	for _, l := range strings.Split(txt, "\n") {
+		if strings.Contains(l, "SIGSEGV") || strings.Contains(l, "signal arrived") || strings.Contains(l, "fatal error") || strings.Contains(l, "_Cfunc_") || strings.Contains(l, "quicklz.") {
+			keep = append(keep, strings.TrimSpace(l))
+		}
+		if len(keep) >= 6 {
+			break
+		}
+	}
+	return strings.Join(keep, "\n")
 }
